@@ -357,6 +357,13 @@ func c15R3(c *Ctx, rule string) {
 	if n != 1 {
 		c.Bad(rule, "getSnapshots:append", c.P.Pos(fn.Pos()), "exactly one append to the listing", fmt.Sprintf("%d", n))
 	}
+	// an unusable entry is skipped, it never aborts the listing: one
+	// half-removed or corrupt directory must not hide the complete snapshots
+	for i, ret := range engine.ReturnsOf(fn) {
+		c.RequireAt(r, rule, fmt.Sprintf("getSnapshots:bad-entry-skipped-not-fatal#%d", i+1), ret, "no return is reached from an iteration that found a .tmp directory, undecodable metadata or an unsupported version (such entries are skipped and the scan continues)", func(v engine.View) bool {
+			return !v.T("metaErr") && !v.T("tmp") && !v.T("low") && !v.T("high") && !v.F("isDir")
+		})
+	}
 	// sorted newest first
 	sorted := false
 	var lessType string
